@@ -128,6 +128,10 @@ Fixpoint lookup (i : idx) (k : key) : option entry :=
   | (k', e) :: r => if key_eqb k k' then Some e else lookup r k
   end.
 
+(* what an answer may show of an entry: everything but the bookkeeping flag *)
+Definition strip (e : entry) : entry := {| e_meta := e_meta e; e_hash := e_hash e; e_loaded := false |}.
+Definition lookupS (i : idx) (k : key) : option entry := option_map strip (lookup i k).
+
 Definition has_node (i : idx) (k : key) : bool := existsb (fun x => is_prefix k (fst x)) i.
 Definition is_node (i : idx) (k : key) : bool := match k with [] => true | _ => has_node i k end.
 
@@ -214,7 +218,7 @@ Definition guarded {A} (E : env) (s : sel) (i : idx) (q : idx -> res A) : idx * 
 
 (* trie[key]: Ok None = ShortKeyError (a node without a value) *)
 Definition get_q (k : key) (i : idx) : res (option entry) :=
-  match lookup i k with
+  match lookupS i k with
   | Some e => Ok (Some e)
   | None => if is_node i k then Ok None else Err E_KEY
   end.
@@ -229,22 +233,22 @@ Definition get_step (E : env) (i : idx) (k : key) : idx * res (option entry) :=
 Definition child_name (k k' : key) : list name :=
   if is_prefix k k' then match skipn (length k) k' with n :: _ => [n] | [] => [] end else [].
 Definition children_q (k : key) (i : idx) : list (key * option entry) :=
-  map (fun n => (k ++ [n], lookup i (k ++ [n])))
+  map (fun n => (k ++ [n], lookupS i (k ++ [n])))
       (usort name_ltb (flat_map (fun x => child_name k (fst x)) i)).
 Definition ls_q (k : key) (i : idx) : res (list (key * option entry)) :=
   if is_node i k then Ok (children_q k i) else Err E_KEY.
 
 (* DataIndex.ls: _ensure_loaded (self.get + _load of the key itself) then trie.ls *)
-Definition ensure_sel (k : key) (r : res (option entry)) : sel :=
-  match r with
-  | Ok (Some e) => if isdir_raw e && negb (e_loaded e) then s_key k else s_none
-  | _ => s_none
+Definition ensure_sel (k : key) (i : idx) : sel :=
+  match lookup i k with
+  | Some e => if isdir_raw e && negb (e_loaded e) then s_key k else s_none
+  | None => s_none
   end.
 Definition ls_step (E : env) (i : idx) (k : key) : idx * res (list (key * option entry)) :=
   let '(i1, r) := get_step E i k in
   match r with
   | Err 11 => (i1, Err E_DIRERR)
-  | _ => guarded E (ensure_sel k r) i1 (ls_q k)
+  | _ => guarded E (ensure_sel k i1) i1 (ls_q k)
   end.
 
 (* DataIndex.iteritems(prefix, shallow) *)
@@ -253,7 +257,7 @@ Definition top (i : idx) (p k : key) : bool :=
 Definition items_sel (i : idx) (p : key) (sh : bool) : sel :=
   fun x => is_prefix p (fst x) && (negb sh || top i p (fst x)).
 Definition items_q (p : key) (sh : bool) (i : idx) : res (list (key * option entry)) :=
-  Ok (map (fun k => (k, lookup i k))
+  Ok (map (fun k => (k, lookupS i k))
           (usort key_ltb (filter (fun k => is_prefix p k && (negb sh || top i p k)) (map fst i)))).
 Definition items_step (E : env) (i : idx) (p : key) (sh : bool) : idx * res (list (key * option entry)) :=
   let s1 := match p with [] => s_none | _ => s_lp i p end in
@@ -269,7 +273,7 @@ Definition pathok (f : key -> bool) (k : key) : bool :=
 Definition view_sel (f : key -> bool) : sel :=
   fun x => pathok f (fst x) && hi_isdir (e_hash (snd x)).
 Definition view_items_q (f : key -> bool) (i : idx) : res (list (key * option entry)) :=
-  Ok (map (fun k => (k, lookup i k)) (usort key_ltb (filter (pathok f) (map fst i)))).
+  Ok (map (fun k => (k, lookupS i k)) (usort key_ltb (filter (pathok f) (map fst i)))).
 Definition view_items_step (E : env) (i : idx) (f : key -> bool) :=
   guarded E (view_sel f) i (view_items_q f).
 
@@ -487,10 +491,10 @@ Definition explicit (E : env) (i : idx) : idx := flat_map (explicit1 E) i.
 
 (* (key, is-directory, file hash) of every node but the root *)
 Definition node_keys (i : idx) : list key := usort key_ltb (flat_map (fun x => inits_ne (fst x)) i).
-Definition proj1 (i : idx) (k : key) : key * bool * option oid :=
-  let oe := lookup i k in
+Definition project1 (i : idx) (k : key) : key * bool * option oid :=
+  let oe := lookupS i k in
   (k, info_isdir oe, if info_isdir oe then None else hval oe).
-Definition project (i : idx) : list (key * bool * option oid) := map (proj1 i) (node_keys i).
+Definition project (i : idx) : list (key * bool * option oid) := map (project1 i) (node_keys i).
 Definition enc_project (l : list (key * bool * option oid)) : val :=
   enc_list (fun t : key * bool * option oid => VL [enc_key (fst (fst t)); enc_bool (snd (fst t)); enc_hash (snd t)]) l.
 
